@@ -252,6 +252,51 @@ theorem cancel_honoured_free (lv : LevelRun) :
     rw [ht]
     exact exec_precancelled ca t 0
 
+/-- **ends with 1 exactly on success** (completes `sequential_monotone` / `cancel_honoured`): a call
+whose token is cancelled when report number `k` (value `p < 1`) arrives returns `Cancelled`, has made
+exactly the reports `0..k` — every report is a `checked_report`, so nothing is reported after the
+request — and all of them are below 1; whereas the uncancelled call returns `Ok` and its last report
+is 1.  (Sequential semantics; in a real parallel level jobs that had passed their last check may
+still submit, adding reports below 1 only — see `parallel_monotone`.) -/
+theorem ends_with_one_iff_success (lv0 : LevelRun) (mips : List LevelRun)
+    (hv : ∀ x, x ∈ lv0 :: mips → x.Valid) (k : Nat) (p : Rat)
+    (hk : (reports (surfaceTrace lv0 mips))[k]? = some p) (hp : p < 1) :
+    let tr := surfaceTrace lv0 mips
+    let o := exec (some k) tr false 0
+    o.ok = false ∧ o.reports = (reports tr).take (k + 1) ∧ (∀ x, x ∈ o.reports → x < 1) ∧
+    (exec none tr false 0).ok = true ∧ (exec none tr false 0).reports.getLast? = some 1 := by
+  intro tr o
+  have hc := (cancel_honoured lv0 mips).2.1 k p hk hp
+  have hr : o.reports = (reports tr).take (k + 1) := by
+    have := exec_cancel_reports tr false (guarded_surface lv0 mips false) 0 k p hk
+    simpa using this
+  have hm := (surface_monotone_any_schedule lv0 mips hv)
+  refine ⟨hc, hr, ?_, ?_, ?_⟩
+  · intro x hx
+    rw [hr] at hx
+    -- x is one of the first k+1 reports, hence ≤ p
+    obtain ⟨i, hi, hxi⟩ := List.getElem_of_mem hx
+    rw [List.length_take] at hi
+    have hik : i ≤ k := by omega
+    have hlen : i < (reports tr).length := by omega
+    have hklen : k < (reports tr).length := by
+      have := (List.getElem?_eq_some_iff.mp hk).1
+      exact this
+    have hxi' : x = (reports tr)[i] := by
+      rw [← hxi, List.getElem_take]
+    have hpk : p = (reports tr)[k] := by
+      have := (List.getElem?_eq_some_iff.mp hk).2
+      exact this.symm
+    by_cases hik' : i = k
+    · subst hik'; rw [hxi', ← hpk]; exact hp
+    · have hlt : i < k := by omega
+      have := (List.pairwise_iff_getElem.mp hm.1) i k hlen hklen hlt
+      rw [hxi']
+      rw [hpk] at hp
+      grind
+  · rw [hm.2.2.2]
+  · rw [hm.2.2.2]; exact hm.2.2.1
+
 /-! ### non-vacuity -/
 
 /-- a BC1 level of 3 x 2 blocks reporting every 2nd block: reports 0, 2/6, 4/6 -/
